@@ -186,6 +186,7 @@ async def run_history(mods, ops, trace):
             key = (op["kind"], op["name"])
             k = op["op"]
             resync = False
+            raised_after_preparing = False
             if k == "offer":
                 valid = bool(op["name"]) and bool(op["version"])
                 if not valid:
@@ -193,13 +194,15 @@ async def run_history(mods, ops, trace):
                         return i, "an offer without name or resourceVersion was accepted"
                     if w.calls != calls_before:
                         return i, "a rejected offer called the preparer"
-                elif out["k"] != "returned":
+                elif out["k"] not in ("returned", "raisedCycle"):
                     return i, f"a well-formed offer gave {out['k']}"
                 else:
                     cur = ref.get(key)
                     if cur is not None and cur[0] == op["version"]:
                         if w.calls != calls_before:
                             return i, "offering the cached resourceVersion prepared again"
+                        if out["k"] != "returned":
+                            return i, "offering the cached resourceVersion raised SubscriptionCycle"
                         if raw is not cur[1]:
                             return i, "offering the cached resourceVersion did not return the cached result"
                     else:
@@ -207,6 +210,7 @@ async def run_history(mods, ops, trace):
                             return i, f"offering a different resourceVersion called the preparer {w.calls - calls_before} times"
                         if raw is not w.made[calls_before]:
                             return i, "the offer did not return what its preparer produced"
+                        raised_after_preparing = out["k"] == "raisedCycle"
                         d = w.desc[id(raw)][1]
                         if (d["kind"], d["name"], d["id"]) != (op["kind"], op["name"], op["spec"]["id"]):
                             return i, "the preparer was called with another name or spec than offered"
@@ -222,6 +226,15 @@ async def run_history(mods, ops, trace):
                         del ref[key]
                     elif op["version"] == "":
                         resync = True      # an empty version string names nothing: the property is silent
+            elif k == "deleteMeta":
+                if w.calls != calls_before:
+                    return i, "delete called a preparer"
+                if bool(op["name"]) and bool(op["version"]):
+                    if out["k"] != "unit":
+                        return i, f"a well-formed delete-by-metadata gave {out['k']}"
+                    ref.pop(key, None)       # deleting by name: the metadata's resourceVersion is irrelevant
+                elif out["k"] != "typeError":
+                    return i, "delete metadata without name or resourceVersion was accepted"
             elif k == "lookup":
                 cur = ref.get(key)
                 if (raw if cur is None else None) is not None or (cur is not None and raw is not cur[1]):
@@ -241,7 +254,13 @@ async def run_history(mods, ops, trace):
                 cur = ref.get(kk)
                 if cur is None:
                     if a is not None or b is not None:
-                        what = "a deleted / never offered name is still cached" if k == "delete" else "an entry appeared for a name that holds none"
+                        if k == "deleteMeta" and kk == key:
+                            what = ("deleting by name through delete_resource_from_cache left the entry cached "
+                                    f"(metadata resourceVersion {op['version']!r}, cached {b.resource_version!r})")
+                        elif k == "delete":
+                            what = "a deleted / never offered name is still cached"
+                        else:
+                            what = "an entry appeared for a name that holds none"
                         return i, what
                 else:
                     if b is None:
@@ -253,9 +272,15 @@ async def run_history(mods, ops, trace):
                             what = "an entry vanished"
                         return i, what
                     if a is not cur[1] or b.resource is not cur[1] or b.resource_version != cur[0]:
-                        return i, "lookups do not return the result of the most recently offered version"
+                        what = "lookups do not return the result of the most recently offered version"
+                        if raised_after_preparing and kk == key:
+                            what += (f" (the offer of version {op['version']!r} prepared and then raised "
+                                     f"SubscriptionCycle; cached version is {b.resource_version!r})")
+                        return i, what
     finally:
         kutil.reset()
+        for _ in range(3):       # never-started monitor tasks were cancelled by the reset: let them go
+            await asyncio.sleep(0)
     return None
 
 
@@ -267,6 +292,13 @@ def gen_history(r):
     current = {}      # generator's idea of the cached version per key
     nid = 0
     focus = r.random() < 0.4   # some histories hammer one or two keys
+    subby = r.random() < 0.5   # half of the histories declare subscriptions (cycles included)
+    allkeys = [(i, n) for i in range(2) for n in NAMES]
+
+    def subs():
+        if not subby or r.random() < 0.4:
+            return []
+        return [list(x) for x in r.sample(allkeys, r.choice([1, 1, 2, 3]))]
 
     def key():
         if focus:
@@ -287,9 +319,16 @@ def gen_history(r):
             nm = "" if r.random() < 0.02 else name
             ops.append({"op": "offer", "kind": kind, "name": nm, "version": v,
                         "spec": {"id": nid, "fail": r.random() < 0.3},
-                        "sys": r.choice([None, None, nid])})
+                        "sys": r.choice([None, None, nid]), "subs": subs()})
             if v and nm:
                 current[(kind, nm)] = v
+        elif x < 0.56:
+            cur = current.get((kind, name))
+            y = r.random()
+            v = cur if (cur and y < 0.3) else r.choice(VERSIONS + ["7", "7", None, ""] if y > 0.9 else VERSIONS + ["7"])
+            ops.append({"op": "deleteMeta", "kind": kind, "name": name, "version": v})
+            if v:
+                current.pop((kind, name), None)
         elif x < 0.68:
             cur = current.get((kind, name))
             y = r.random()
@@ -307,7 +346,7 @@ def gen_history(r):
                 if r.random() < 0.5:                       # delete then re-offer of an old version
                     nid += 1
                     ops.append({"op": "offer", "kind": kind, "name": name, "version": r.choice([old, "1"]),
-                                "spec": {"id": nid, "fail": r.random() < 0.3}, "sys": None})
+                                "spec": {"id": nid, "fail": r.random() < 0.3}, "sys": None, "subs": subs()})
                     current[(kind, name)] = ops[-1]["version"]
         elif x < 0.86:
             ops.append({"op": "lookup", "kind": kind, "name": name})
@@ -316,18 +355,193 @@ def gen_history(r):
     return ops[:60]
 
 
+# --------------------------------------------------------------------------- family B: loop turns
+
+ORDER = [(0, "a"), (0, "b"), (1, "a"), (1, "b")]     # a key may only watch keys further right: no cycles
+
+
+def gen_turn_history(r):
+    """offers with (acyclic) subscriptions, new versions with new specs, deletes, and event-loop turns in
+    between so that monitors start and re-prepare in the background"""
+    ops = []
+    nid = 0
+    ver = {}
+    watch = {i: [list(k) for k in ORDER[i + 1:] if r.random() < 0.6] for i in range(len(ORDER))}
+    for _ in range(r.randint(3, 14)):
+        x = r.random()
+        i = r.randrange(len(ORDER))
+        kind, name = ORDER[i]
+        if x < 0.55:
+            nid += 1
+            cur = ver.get(i, 0)
+            v = cur if (cur and r.random() < 0.2) else r.choice([cur + 1, cur + 1, 1, 2, 3])
+            ver[i] = v
+            ops.append({"op": "offer", "kind": kind, "name": name, "version": str(v),
+                        "spec": {"id": nid, "fail": r.random() < 0.15, "subs": watch[i]}, "sys": None})
+        elif x < 0.65:
+            ops.append({"op": r.choice(["delete", "deleteMeta"]), "kind": kind, "name": name,
+                        "version": r.choice([None, "9"])})
+            if ops[-1]["op"] == "deleteMeta" and ops[-1]["version"] is None:
+                ops[-1]["version"] = "9"
+            ver.pop(i, None)
+        else:
+            ops.append({"op": "turn", "n": r.choice([1, 1, 2, 3, 6])})
+    ops.append({"op": "turn", "n": 8})
+    return ops
+
+
+async def run_turn_history(mods, ops):
+    """family B on the real cache; the oracle is C15's 'latest wins' evaluated after every operation and
+    after every single loop turn: the entry of a key is at the most recently OFFERED version, built from
+    ITS spec; an offer prepares iff the version differs.  Returns (index, description) or None."""
+    cache, result, kutil = mods
+    from koreo import registry
+    kutil.reset()
+    calls = 0
+
+    def make_preparer(kind_idx):
+        async def prepare(name, spec):
+            nonlocal calls
+            calls += 1
+            declared = [registry.Resource(resource_type=KINDS[k], name=n) for k, n in spec.get("subs", [])]
+            if spec.get("fail"):
+                o = result.PermFail(message="boom")
+                o.built_from = (kind_idx, name, spec.get("id"))
+                return o
+            o = Tok(True)
+            o.built_from = (kind_idx, name, spec.get("id"))
+            return o, (declared or None)
+        return prepare
+
+    preparers = [make_preparer(0), make_preparer(1)]
+    latest = {}      # key -> (version, spec id, fail)
+
+    def audit(i, when):
+        for key in ORDER:
+            e = cache.get_resource_system_data_from_cache(KINDS[key[0]], key[1])
+            a = cache.get_resource_from_cache(KINDS[key[0]], key[1])
+            want = latest.get(key)
+            if want is None:
+                if e is not None or a is not None:
+                    return i, f"{when}: {key} is cached although it was deleted / never offered"
+                continue
+            if e is None:
+                return i, f"{when}: the entry of {key} vanished"
+            if e.resource_version != want[0]:
+                return i, (f"{when}: {key} is cached at resourceVersion {e.resource_version!r}, the most recently "
+                           f"offered version is {want[0]!r}")
+            built = getattr(e.resource, "built_from", None)
+            if e.spec.get("id") != want[1] or built != (key[0], key[1], want[1]):
+                return i, (f"{when}: the result cached for {key} was built from spec {built and built[2]}, the most "
+                           f"recently offered version's spec is {want[1]}")
+            if isinstance(e.resource, result.PermFail) != want[2]:
+                return i, f"{when}: outcome class of {key} does not match its spec"
+            if a is not e.resource:
+                return i, f"{when}: the two lookups of {key} disagree"
+        return None
+
+    try:
+        for i, op in enumerate(ops):
+            k = op["op"]
+            if k == "turn":
+                for _ in range(op["n"]):
+                    await asyncio.sleep(0)
+                    bad = audit(i, "after a loop turn")
+                    if bad:
+                        return bad
+                continue
+            key = (op["kind"], op["name"])
+            kind = KINDS[op["kind"]]
+            before = calls
+            if k == "offer":
+                await cache.prepare_and_cache(
+                    resource_class=kind, preparer=preparers[op["kind"]],
+                    metadata={"name": op["name"], "resourceVersion": op["version"]}, spec=dict(op["spec"]))
+                cur = latest.get(key)
+                if cur is not None and cur[0] == op["version"]:
+                    if calls != before:
+                        return i, f"offering the cached resourceVersion {op['version']!r} of {key} prepared again"
+                else:
+                    if calls != before + 1:
+                        return i, f"offering a different resourceVersion called the preparer {calls - before} times"
+                    latest[key] = (op["version"], op["spec"]["id"], op["spec"]["fail"])
+            elif k == "delete":
+                await cache.delete_from_cache(kind, op["name"], op["version"])
+                cur = latest.get(key)
+                if cur is not None and (not op["version"] or op["version"] == cur[0]):
+                    del latest[key]
+            elif k == "deleteMeta":
+                await cache.delete_resource_from_cache(kind, {"name": op["name"], "resourceVersion": op["version"]})
+                latest.pop(key, None)
+            bad = audit(i, f"after {k}")
+            if bad:
+                return bad
+    finally:
+        kutil.reset()
+        for _ in range(4):           # let cancelled monitors finish before the next history
+            await asyncio.sleep(0)
+    return None
+
+
+async def ddmin_async(items, fails):
+    """common.ddmin with an awaitable predicate"""
+    items = list(items)
+    n = 2
+    while len(items) >= 2:
+        chunk = max(1, len(items) // n)
+        reduced = False
+        for i in range(0, len(items), chunk):
+            cand = items[:i] + items[i + chunk:]
+            try:
+                if cand and await fails(cand):
+                    items, n, reduced = cand, max(n - 1, 2), True
+                    break
+            except Infra:
+                raise
+            except Exception:
+                pass
+        if not reduced:
+            if chunk == 1:
+                break
+            n = min(len(items), n * 2)
+    return items
+
+
 # --------------------------------------------------------------------------- the check
 
 def load_corpus():
     out = []
     if CORPUS.exists():
         for f in sorted(CORPUS.glob("*.json")):
-            out.append((f.name, json.loads(f.read_text())["ops"]))
+            out.append((f.name, json.loads(f.read_text())))
+    return out
+
+
+SHRINK_FIRST = 5     # failing histories that get delta-debugged
+STOP_AFTER = 40      # failing histories after which a run stops exploring (the verdict is settled)
+
+
+def wire_ops(ops, got):
+    """ops as the model driver wants them: the registry's answer to each offer (did wiring up the
+    declared subscriptions raise SubscriptionCycle?) is an oracle input taken from the implementation"""
+    out = []
+    for j, op in enumerate(ops):
+        w = {k: v for k, v in op.items() if k != "subs"}
+        if op["op"] == "offer":
+            w["cycle"] = j < len(got) and got[j]["out"]["k"] == "raisedCycle"
+        out.append(w)
     return out
 
 
 async def explore(ck, mods, drv, cases, what):
-    reqs = [{"keys": [{"kind": k, "name": n} for k, n in keys_of(ops)], "ops": ops} for ops in cases]
+    """family A: implementation first (it supplies the registry oracle), then the model; False = stop"""
+    runs = []
+    for ops in cases:
+        got = []
+        bad = await run_history(mods, ops, got)
+        runs.append((got, bad))
+    reqs = [{"keys": [{"kind": k, "name": n} for k, n in keys_of(ops)], "ops": wire_ops(ops, got)}
+            for ops, (got, _) in zip(cases, runs)]
     try:
         answers = drv.ask(reqs)
     except Infra as e:
@@ -335,10 +549,8 @@ async def explore(ck, mods, drv, cases, what):
             ck.notes.append(f"model driver unavailable: {e}")
         ck.build_ok = False
         answers = [None] * len(cases)
-    for ops, ans in zip(cases, answers):
+    for ops, (got, bad), ans in zip(cases, runs, answers):
         ck.evaluated()
-        got = []
-        bad = await run_history(mods, ops, got)
         if isinstance(ans, dict) and "error" in ans:
             ck.disagree({"ops": ops}, ans, None, "driver-error")
         elif ans is not None:
@@ -350,22 +562,17 @@ async def explore(ck, mods, drv, cases, what):
                     break
         if bad is not None:
             i, msg = bad
-
-            async def fails_async(sub):
-                return (await run_history(mods, sub, [])) is not None
-
-            # ddmin wants a synchronous predicate; histories never suspend, so drive the coroutine by hand
-            def fails(sub):
-                co = fails_async(sub)
-                try:
-                    co.send(None)
-                except StopIteration as s:
-                    return s.value
-                co.close()
-                raise Infra("a cache operation suspended")
-            small = ddmin(ops[:i + 1], fails)
-            b2 = await run_history(mods, small, [])
-            ck.violate({"ops": small}, b2[1] if b2 else msg)
+            if len(ck.violations) < SHRINK_FIRST:
+                async def fails(sub):
+                    return (await run_history(mods, sub, [])) is not None
+                small = await ddmin_async(ops[:i + 1], fails)
+                b2 = await run_history(mods, small, [])
+                ck.violate({"family": "A", "ops": small}, b2[1] if b2 else msg)
+            else:
+                ck.violate({"family": "A", "ops": ops[:i + 1]}, msg)
+            if len(ck.violations) >= STOP_AFTER:
+                ck.notes.append(f"exploration stopped after {STOP_AFTER} failing histories")
+                return False
             continue
         kinds = set()
         versions = {}
@@ -377,9 +584,20 @@ async def explore(ck, mods, drv, cases, what):
                 ck.count(f"offer:{tag}")
                 kinds.add(tag)
                 versions.setdefault((op["kind"], op["name"]), []).append(op["version"])
+            elif o["k"] == "raisedCycle":
+                ck.count("offer:prepared-then-SubscriptionCycle")
+                kinds.add("raisedCycle")
+                versions.setdefault((op["kind"], op["name"]), []).append(op["version"])
             elif o["k"] == "typeError":
-                ck.count("offer:typeError")
+                ck.count(f"{op['op']}:typeError")
                 kinds.add("typeError")
+            elif op["op"] == "deleteMeta":
+                before = got[j - 1]["view"] if j else [{"entry": None}] * len(g["view"])
+                gone = [a["entry"]["version"] for a, b in zip(before, g["view"]) if a["entry"] is not None and b["entry"] is None]
+                tag = ("deleteMeta-removed-other-version" if gone and gone[0] != op["version"]
+                       else "deleteMeta-removed-same-version" if gone else "deleteMeta-absent")
+                ck.count(tag)
+                kinds.add(tag)
             elif op["op"] == "delete":
                 before = got[j - 1]["view"] if j else [{"entry": None}] * len(g["view"])
                 removed = sum(1 for a, b in zip(before, g["view"]) if a["entry"] is not None and b["entry"] is None)
@@ -394,6 +612,40 @@ async def explore(ck, mods, drv, cases, what):
             ck.nontriv(json.dumps(ops, sort_keys=True))
             if 4 <= len(ops) <= 10:
                 ck.sample({"ops": ops, "outs": [g["out"] for g in got]})
+    return True
+
+
+async def explore_turns(ck, mods, cases):
+    """family B: oracle only; False = stop"""
+    for ops in cases:
+        ck.evaluated()
+        ck.count("familyB:histories")
+        bad = await run_turn_history(mods, ops)
+        if bad is not None:
+            i, msg = bad
+            if len(ck.violations) < SHRINK_FIRST:
+                async def fails(sub):
+                    return (await run_turn_history(mods, sub)) is not None
+                small = await ddmin_async(ops[:i + 1], fails)
+                b2 = await run_turn_history(mods, small)
+                ck.violate({"family": "B", "ops": small}, b2[1] if b2 else msg)
+            else:
+                ck.violate({"family": "B", "ops": ops[:i + 1]}, msg)
+            if len(ck.violations) >= STOP_AFTER:
+                return False
+            continue
+        turns = sum(op.get("n", 0) for op in ops if op["op"] == "turn")
+        offers = [op for op in ops if op["op"] == "offer"]
+        watchers = [op for op in offers if op["spec"]["subs"]]
+        ck.count("familyB:turns", turns)
+        ck.count("familyB:offers", len(offers))
+        keys = {(op["kind"], op["name"]) for op in watchers}
+        if len({(op["kind"], op["name"], op["version"]) for op in watchers}) > len(keys):
+            ck.count("familyB:watcher-re-versioned")
+            ck.nontriv("B" + json.dumps(ops, sort_keys=True))
+            if len(ops) <= 8:
+                ck.sample({"family": "B", "ops": ops})
+    return True
 
 
 def run(tier: str) -> int:
@@ -422,15 +674,26 @@ def run(tier: str) -> int:
     mods = (cache, result, kutil)
 
     async def main():
-        for name, ops in load_corpus():
+        go = True
+        for name, case in load_corpus():
             ck.count("corpus")
-            await explore(ck, mods, drv, [ops], "corpus")
+            if case.get("family") == "B":
+                go = go and await explore_turns(ck, mods, [case["ops"]])
+            else:
+                go = go and await explore(ck, mods, drv, [case["ops"]], "corpus")
         r = rng("c15")
         total = 2000 if tier == "quick" else 100000
         done = 0
-        while done < total:
+        while go and done < total:
             batch = [gen_history(r) for _ in range(min(2000, total - done))]
-            await explore(ck, mods, drv, batch, "random")
+            go = await explore(ck, mods, drv, batch, "random")
+            done += len(batch)
+        rb = rng("c15-turns")
+        total_b = 600 if tier == "quick" else 30000
+        done = 0
+        while go and done < total_b:
+            batch = [gen_turn_history(rb) for _ in range(min(1000, total_b - done))]
+            go = await explore_turns(ck, mods, batch)
             done += len(batch)
 
     kutil.run(main())
@@ -457,7 +720,10 @@ def replay(path: str) -> int:
         nonlocal rc
         for case in cases:
             got = []
-            bad = await run_history((cache, result, kutil), case["ops"], got)
+            if case.get("family") == "B":
+                bad = await run_turn_history((cache, result, kutil), case["ops"])
+            else:
+                bad = await run_history((cache, result, kutil), case["ops"], got)
             print("replay:", json.dumps(case), "->", json.dumps([g["out"] for g in got]), "::", bad)
             rc = rc or (1 if bad else 0)
 
